@@ -25,12 +25,33 @@ type Solver struct {
 	Errors  int
 	Dur     time.Duration
 	log     io.Writer
+
+	// cross-checking: a second solver of another kind receives every
+	// declaration, assertion, push and pop; every crossEvery-th check-sat is
+	// answered by both and the verdicts compared. A sat/unsat disagreement
+	// makes the query Unknown (inconclusive) and is counted.
+	shadow       *Solver
+	crossEvery   int
+	crossCount   int
+	CrossChecked int // queries answered by both solvers with a definite verdict
+	CrossUnknown int // queries on which the second solver gave no verdict
+	CrossDiffer  int // sat/unsat disagreements
+	CrossDur     time.Duration
 }
+
+// CrossKind / CrossEvery configure cross-checking for solvers created afterwards
+// ("" = off). Set from VERIF_CROSS / VERIF_CROSS_EVERY by the front ends.
+var (
+	CrossKind  = ""
+	CrossEvery = 1
+)
 
 // SolverTimeoutMs is the per-query cap.
 var SolverTimeoutMs = 10000
 
-func NewSolver(kind string) *Solver {
+func NewSolver(kind string) *Solver { return newSolver(kind, true) }
+
+func newSolver(kind string, withShadow bool) *Solver {
 	var c *exec.Cmd
 	switch kind {
 	case "cvc5":
@@ -57,18 +78,65 @@ func NewSolver(kind string) *Solver {
 	} else {
 		s.send(fmt.Sprintf("(set-option :global-declarations true)\n(set-option :timeout %d)\n", SolverTimeoutMs))
 	}
+	if withShadow && CrossKind != "" && CrossKind != kind {
+		s.shadow = newSolver(CrossKind, false)
+		s.crossEvery = CrossEvery
+		if s.crossEvery < 1 {
+			s.crossEvery = 1
+		}
+	}
 	return s
 }
 
+// send writes state-changing commands (declarations, assertions, push, pop) to
+// the solver and to its shadow.
 func (s *Solver) send(txt string) {
+	s.send1(txt)
+	if s.shadow != nil {
+		s.shadow.send1(txt)
+	}
+}
+
+// send1 writes to this solver only.
+func (s *Solver) send1(txt string) {
 	if s.log != nil {
 		io.WriteString(s.log, txt)
 	}
 	s.w.WriteString(txt)
 }
 
+// cross asks the shadow solver the query q (text ending in check-sat, state
+// neutral) and compares the verdicts.
+func (s *Solver) cross(q string, r int) int {
+	if s.shadow == nil || r == Unknown {
+		return r
+	}
+	s.crossCount++
+	if s.crossCount%s.crossEvery != 0 {
+		return r
+	}
+	t0 := time.Now()
+	s.shadow.send1(q)
+	r2 := s.shadow.result()
+	s.CrossDur += time.Since(t0)
+	switch {
+	case r2 == Unknown:
+		s.CrossUnknown++
+	case r2 != r:
+		s.CrossDiffer++
+		fmt.Fprintf(os.Stderr, "SOLVER DISAGREEMENT: %s says %d, %s says %d\n", s.kind, r, s.shadow.kind, r2)
+		return Unknown
+	default:
+		s.CrossChecked++
+	}
+	return r
+}
+
 func (s *Solver) Close() {
-	s.send("(exit)\n")
+	if s.shadow != nil {
+		s.shadow.Close()
+	}
+	s.send1("(exit)\n")
 	s.w.Flush()
 	s.in.Close()
 	s.cmd.Wait()
@@ -124,10 +192,10 @@ const (
 func (s *Solver) Check() int {
 	t0 := time.Now()
 	s.Queries++
-	s.send("(check-sat)\n")
+	s.send1("(check-sat)\n")
 	r := s.result()
 	s.Dur += time.Since(t0)
-	return r
+	return s.cross("(check-sat)\n", r)
 }
 
 func (s *Solver) result() int {
@@ -158,7 +226,7 @@ func (s *Solver) result() int {
 }
 
 func (s *Solver) drainAfterError() {
-	s.send("(echo \"SYNC\")\n")
+	s.send1("(echo \"SYNC\")\n")
 	for {
 		l := s.readLine()
 		if l == "SYNC" || l == "\"SYNC\"" {
@@ -172,10 +240,11 @@ func (s *Solver) CheckWith(extra *Term) int {
 	s.declareVars(extra)
 	t0 := time.Now()
 	s.Queries++
-	s.send("(push 1)\n(assert " + extra.SMT() + ")\n(check-sat)\n(pop 1)\n")
+	q := "(push 1)\n(assert " + extra.SMT() + ")\n(check-sat)\n(pop 1)\n"
+	s.send1(q)
 	r := s.result()
 	s.Dur += time.Since(t0)
-	return r
+	return s.cross(q, r)
 }
 
 var valRe = regexp.MustCompile(`\(\s*([^\s()]+)\s+(#x[0-9a-fA-F]+|#b[01]+|true|false)\s*\)`)
@@ -186,7 +255,7 @@ func (s *Solver) Values(names []string) map[string]uint64 {
 	if len(names) == 0 {
 		return res
 	}
-	s.send("(get-value (" + strings.Join(names, " ") + "))\n(echo \"ENDV\")\n")
+	s.send1("(get-value (" + strings.Join(names, " ") + "))\n(echo \"ENDV\")\n")
 	var sb strings.Builder
 	for {
 		l := s.readLine()
@@ -226,7 +295,7 @@ func parseLit(l string) uint64 {
 
 // TermValue returns the model value of a term after a sat check.
 func (s *Solver) TermValue(t *Term) (uint64, bool) {
-	s.send("(get-value (" + t.SMT() + "))\n(echo \"ENDV\")\n")
+	s.send1("(get-value (" + t.SMT() + "))\n(echo \"ENDV\")\n")
 	var sb strings.Builder
 	for {
 		l := s.readLine()
